@@ -167,3 +167,37 @@ def check_tails(cx, rule, prop_filter):
                  note_ok="tail=%s guards=%s%s" % ("+".join(sorted(kinds)), "+".join(sorted(classes)) or "-", " (after dispatch)" if after_dispatch else ""),
                  witness={"path_hint": "read_until -> ... -> bb%d" % s.bb, "tail_kinds": sorted(kinds)})
     return h, n
+
+
+def check_writer_passthrough(cx, rule, h=None):
+    """replies are written to the caller's writer as they are produced: every Call in handle() wraps the `writer` argument itself"""
+    h = h or analyse_handle(cx)
+    body, du = h.body, h.du
+    sl = Slice(body, du)
+    calls = list(h.call_news) + list(body.calls("=new_upgraded"))
+    for i, t in enumerate(calls):
+        orig = sl.origins(t.args[0])
+        good = bool(orig) and all(k == "arg" and o == 3 for k, o in orig)
+        cx.check(good, rule, "handle:%s#%d:writes-to-callers-writer" % (t.callee.name, i), "%s %s" % (t.sp, body.path),
+                 "the Call replies into %s instead of handle()'s writer argument: replies are held back (and lost on an error exit), so what the peer sees depends on how the stream was segmented" %
+                 sorted({("a local buffer" if k == "call" else k) for k, o in orig if not (k == "arg" and o == 3)}),
+                 note_ok="Call wraps the writer argument")
+    return len(calls)
+
+
+def check_request_immutable(cx, rule, h=None):
+    """the parsed request reaches the interface as parsed: nothing assigns to it or borrows it mutably between parse and dispatch"""
+    h = h or analyse_handle(cx)
+    body, du = h.body, h.du
+    reqs = set()
+    for t in h.call_news:
+        if len(t.args) > 1 and t.args[1].place is not None:
+            from vlib.cfg import ref_chain
+            reqs.add(ref_chain(du, t.args[1].place.l)[-1])
+    bad = []
+    for s in body.stmts():
+        if s.kind != "assign": continue
+        if s.lhs.l in reqs and s.lhs.p: bad.append("assignment to request%s at %s" % ("".join(x for x in s.lhs.p if x.startswith("."))[:30], s.sp))
+        if s.rv == "ref" and s.rplace is not None and s.rplace.l in reqs and s.bk and "mut" in str(s.bk).lower(): bad.append("mutable borrow of the request at %s" % s.sp)
+    cx.check(bool(reqs) and not bad, rule, "handle:request-not-modified", body.sp, "the parsed request is modified before it is dispatched (%s): the interface does not see the flags/parameters the caller sent" % bad[:2],
+             note_ok="request is read-only between parse and dispatch")
